@@ -52,10 +52,10 @@ theorem effTotal_ge (c : Cfg) (t : Nat) (h : c.effTotal = some t) :
 
 /-- **slot_freed.** Whatever the peer, the co-requests and the caller do, once the request has
 ended (normally, by any timeout, or by cancellation at any point) it holds no pool slot. -/
-theorem slot_freed (cfg : Cfg) (co : Bool) (tl : List (Nat × List Ev)) :
-    (run cfg (init co) tl).pc.isDone = true → (run cfg (init co) tl).slot = .none := by
-  have h := inv_run cfg tl _ (inv_init co)
-  generalize run cfg (init co) tl = s at *
+theorem slot_freed (cfg : Cfg) (co : Bool) (c0 : Nat) (tl : List (Nat × List Ev)) :
+    (run cfg (init co c0) tl).pc.isDone = true → (run cfg (init co c0) tl).slot = .none := by
+  have h := inv_run cfg tl _ (inv_init co c0)
+  generalize run cfg (init co c0) tl = s at *
   obtain ⟨p1, p2, p3, p4, p5, p6, p7⟩ := h
   simp only [core] at *
   intro hd
@@ -68,12 +68,12 @@ theorem slot_freed (cfg : Cfg) (co : Bool) (tl : List (Nat × List Ev)) :
 if the complete response had arrived and the connection was handed back to the pool; in
 particular after a timeout or cancellation in the middle of an exchange (`eof = false`) the
 connection is closed, not reused. -/
-theorem connection_closed_not_pooled (cfg : Cfg) (co : Bool) (tl : List (Nat × List Ev)) :
-    (run cfg (init co) tl).pc.isDone = true → (run cfg (init co) tl).tr = .open →
-      (run cfg (init co) tl).pooled = true ∧ (run cfg (init co) tl).eof = true := by
-  have h := inv_run cfg tl _ (inv_init co)
-  have hs := slot_freed cfg co tl
-  generalize run cfg (init co) tl = s at *
+theorem connection_closed_not_pooled (cfg : Cfg) (co : Bool) (c0 : Nat) (tl : List (Nat × List Ev)) :
+    (run cfg (init co c0) tl).pc.isDone = true → (run cfg (init co c0) tl).tr = .open →
+      (run cfg (init co c0) tl).pooled = true ∧ (run cfg (init co c0) tl).eof = true := by
+  have h := inv_run cfg tl _ (inv_init co c0)
+  have hs := slot_freed cfg co c0 tl
+  generalize run cfg (init co c0) tl = s at *
   intro hd ho
   rcases h.p6 ho with h1 | h1
   · simp only [core] at h1; rw [hs hd] at h1; cases h1
@@ -82,13 +82,13 @@ theorem connection_closed_not_pooled (cfg : Cfg) (co : Bool) (tl : List (Nat × 
 /-- **no_orphan_task.** After the request has ended, its body-writer task is not parked any
 more (it finished or was cancelled), no per-waiter future of it is left on a DNS lookup and
 it is not queued for a pool slot. -/
-theorem no_orphan_task (cfg : Cfg) (co : Bool) (tl : List (Nat × List Ev)) :
-    (run cfg (init co) tl).pc.isDone = true →
-      (run cfg (init co) tl).wr ≠ .parked ∧ (run cfg (init co) tl).dnsWaitR = false ∧
-      Who.R ∉ (run cfg (init co) tl).poolQ := by
-  have h := inv_run cfg tl _ (inv_init co)
-  have hs := slot_freed cfg co tl
-  generalize run cfg (init co) tl = s at *
+theorem no_orphan_task (cfg : Cfg) (co : Bool) (c0 : Nat) (tl : List (Nat × List Ev)) :
+    (run cfg (init co c0) tl).pc.isDone = true →
+      (run cfg (init co c0) tl).wr ≠ .parked ∧ (run cfg (init co c0) tl).dnsWaitR = false ∧
+      Who.R ∉ (run cfg (init co c0) tl).poolQ := by
+  have h := inv_run cfg tl _ (inv_init co c0)
+  have hs := slot_freed cfg co c0 tl
+  generalize run cfg (init co c0) tl = s at *
   obtain ⟨p1, p2, p3, p4, p5, p6, p7⟩ := h
   simp only [core] at *
   intro hd
@@ -101,21 +101,21 @@ theorem no_orphan_task (cfg : Cfg) (co : Bool) (tl : List (Nat × List Ev)) :
 
 /-- **session_usable.** After the request has ended the pool admits a new request exactly when
 the other holder (if any) has released: the ended request never blocks a follow-up. -/
-theorem session_usable (cfg : Cfg) (co : Bool) (tl : List (Nat × List Ev)) :
-    (run cfg (init co) tl).pc.isDone = true →
-      slotFree cfg (run cfg (init co) tl) = (!cfg.limit1 || !(run cfg (init co) tl).holder) := by
-  intro hd; unfold slotFree; rw [slot_freed cfg co tl hd]; simp
+theorem session_usable (cfg : Cfg) (co : Bool) (c0 : Nat) (tl : List (Nat × List Ev)) :
+    (run cfg (init co c0) tl).pc.isDone = true →
+      slotFree cfg (run cfg (init co c0) tl) = (!cfg.limit1 || !(run cfg (init co c0) tl).holder) := by
+  intro hd; unfold slotFree; rw [slot_freed cfg co c0 tl hd]; simp
 
 /-- Mid-exchange the invariant is just as strict: a slot is held only while the task is in the
 phase that owns it, so a slot can never outlive its phase. -/
-theorem slot_only_in_its_phase (cfg : Cfg) (co : Bool) (tl : List (Nat × List Ev)) :
-    ((run cfg (init co) tl).slot = .placeholder →
-        (run cfg (init co) tl).pc = .dnsOwner ∨ (run cfg (init co) tl).pc = .dnsWaiter ∨
-        (run cfg (init co) tl).pc = .connecting) ∧
-    ((run cfg (init co) tl).slot = .proto →
-        ((run cfg (init co) tl).pc = .headers ∨ (run cfg (init co) tl).pc = .think ∨
-         (run cfg (init co) tl).pc = .body) ∧ (run cfg (init co) tl).respReleased = false) := by
-  have h := inv_run cfg tl _ (inv_init co)
+theorem slot_only_in_its_phase (cfg : Cfg) (co : Bool) (c0 : Nat) (tl : List (Nat × List Ev)) :
+    ((run cfg (init co c0) tl).slot = .placeholder →
+        (run cfg (init co c0) tl).pc = .dnsOwner ∨ (run cfg (init co c0) tl).pc = .dnsWaiter ∨
+        (run cfg (init co c0) tl).pc = .connecting) ∧
+    ((run cfg (init co c0) tl).slot = .proto →
+        ((run cfg (init co c0) tl).pc = .headers ∨ (run cfg (init co c0) tl).pc = .think ∨
+         (run cfg (init co c0) tl).pc = .body) ∧ (run cfg (init co c0) tl).respReleased = false) := by
+  have h := inv_run cfg tl _ (inv_init co c0)
   exact ⟨h.p1, h.p2⟩
 
 
@@ -124,7 +124,7 @@ theorem slot_only_in_its_phase (cfg : Cfg) (co : Bool) (tl : List (Nat × List E
 Full statements (kept here at full strength; proved below in the `_partial` form):
 
   total_bound : ∀ cfg co tl t0 T, R started at t0 → cfg.effTotal = some T →
-     let s := run cfg (init co) tl;  s.now ≥ totalDeadline t0 T →
+     let s := run cfg (init co c0) tl;  s.now ≥ totalDeadline t0 T →
      s.pc.isDone ∨ s.pc = .think          -- (think: the caller itself sleeps outside aiohttp)
   connect_bound / sock_connect_bound / sock_read_bound : likewise with `ctxDeadline t0 c`
      (pool wait, DNS, connect), `ctxDeadline a_i sc` per connect attempt `i`, and
@@ -285,14 +285,14 @@ theorem corel_tcExit (s : St) (e : Exc) : CoRel s (tcExit s e).1 := by
   unfold tcExit; split
   · simp only []; split <;> exact corel_uncancel s
   · exact CoRel.refl s
-theorem corel_ctxExitCore (st : CtxSt) (s : St) (e : Exc) : CoRel s (ctxExitCore st s e).1 := by
+theorem corel_ctxExitCore (st : CtxSt) (b : Nat) (s : St) (e : Exc) : CoRel s (ctxExitCore st b s e).1 := by
   unfold ctxExitCore; split
   · simp only []; split <;> exact corel_uncancel s
   · exact CoRel.refl s
 theorem corel_connExit (s : St) (e : Exc) : CoRel s (connExit s e).1 := by
-  have := corel_ctxExitCore s.connCtx s e; unfold connExit; exact this
+  have := corel_ctxExitCore s.connCtx s.connBase s e; unfold connExit; exact this
 theorem corel_sockExit (s : St) (e : Exc) : CoRel s (sockExit s e).1 := by
-  have := corel_ctxExitCore s.sockCtx s e; unfold sockExit; exact this
+  have := corel_ctxExitCore s.sockCtx s.sockBase s e; unfold sockExit; exact this
 theorem corel_finish (s : St) (o : Outcome) : CoRel s (finish s o) := ⟨rfl, rfl, rfl, Or.inl rfl⟩
 theorem corel_attemptConn (cfg : Cfg) (s : St) : CoRel s (attemptConn cfg s) := by
   unfold attemptConn; corel
@@ -343,7 +343,7 @@ theorem others_unaffected_step (cfg : Cfg) (s : St) (e : Exc) : CoRel s (throwAt
   · exact CoRel.refl s
 
 /- Full statement (not proved as a theorem over timelines):
-   `∀ cfg co tl, let s := run cfg (init co) tl; s.cpc ≠ .failed ∧ s.cpc ≠ .cancelled ∧
+   `∀ cfg co tl, let s := run cfg (init co c0) tl; s.cpc ≠ .failed ∧ s.cpc ≠ .cancelled ∧
       (quiescent s → slotFree cfg s → Who.C ∉ s.poolQ)`.
    The single-transition form above is what is proved; the last conjunct was FALSE before the
    repository's fix "a woken pool waiter that is cancelled before it runs passes the wake-up on"
